@@ -13,15 +13,16 @@ package blobstore
 // backend b.
 //@ ghost baCalls(ref) int
 //@ iface BlobAccess.Get
-//@   modifies baCalls(self)
-//@   ensures baCalls(self) == old(baCalls(self)) + 1 && result != nil
+//@   modifies baCalls(self), baDigest(self)
+//@   ensures baCalls(self) == old(baCalls(self)) + 1 && result != nil && baDigest(self) == digest.value
 //@ iface BlobAccess.GetFromComposite
 //@   modifies baCalls(self)
 //@   ensures baCalls(self) == old(baCalls(self)) + 1 && result != nil
 //@ ghost baPutErr(ref) int
+//@ ghost baDigest(ref) str
 //@ iface BlobAccess.Put
-//@   modifies baCalls(self), baPutErr(self)
-//@   ensures baCalls(self) == old(baCalls(self)) + 1 && baPutErr(self) == result
+//@   modifies baCalls(self), baPutErr(self), baDigest(self)
+//@   ensures baCalls(self) == old(baCalls(self)) + 1 && baPutErr(self) == result && baDigest(self) == digest.value
 // fmArg/fmRes/fmErr(b): the set (identified by its backing array) last passed
 // to, and the set and error last returned by, FindMissing on backend b.
 //@ ghost fmArg(ref) int
@@ -83,3 +84,50 @@ package blobstore
 //@   loop 2 invariant forall k :: 0 <= k && k <= rangeindex && k < len(errs) ==> avCode(ba.findMissingAuthorizer, instanceNames[k].value) == 0
 //@   loop 2 invariant forall k :: 0 <= k && k < len(errs) ==> code(errs[k]) == avCode(ba.findMissingAuthorizer, instanceNames[k].value)
 //@         && (errs[k] == nil <==> avCode(ba.findMissingAuthorizer, instanceNames[k].value) == 0)
+
+// Property C19: the demultiplexer. The getter decides per instance name; an
+// unknown name is refused without contacting anything (and an upload's buffer
+// is released); otherwise exactly the chosen backend is called, with the
+// digest patched by the patcher that came with it, and a backend's failure is
+// reported with its code.
+//@ ghost dmBackend int
+//@ ghost dmPatcher int
+//@ ghost dmErr int
+//@ ghost dmName str
+//@ iface DemultiplexedBlobAccessGetter.call
+//@   modifies dmBackend, dmPatcher, dmErr, dmName
+//@   ensures dmBackend == result0 && dmPatcher == result2 && dmErr == result3 && dmName == i.value
+//@   ensures result3 == nil ==> result0 != nil && result2 != nil
+//@ func (*demultiplexingBlobAccess).Put
+//@   requires ba.getBackend != nil && b != nil
+//@   ensures [routed-by-instance-name] dmName == dgInst(digest.value)
+//@   ensures [unknown-name-refused] dmErr != nil ==> result == dmErr
+//@   ensures [patched-digest-to-the-chosen-backend] dmErr == nil ==> baDigest(dmBackend) == patchD(dmPatcher, digest.value)
+//@   ensures [backend-failure-surfaced] dmErr == nil ==> ((result == nil) <==> (baPutErr(dmBackend) == nil))
+//@         && (result != nil ==> code(result) == code(baPutErr(dmBackend)))
+//@ func (*demultiplexingBlobAccess).Get
+//@   requires ba.getBackend != nil
+//@   ensures result != nil
+//@   ensures [routed-by-instance-name] dmName == dgInst(digest.value)
+//@   ensures [unknown-name-refused] dmErr != nil ==> typeis(result, "buffer.errorBuffer")
+//@   ensures [patched-digest-to-the-chosen-backend] dmErr == nil ==> baDigest(dmBackend) == patchD(dmPatcher, digest.value)
+
+// Property C19: hierarchical instance names. A read starts at the most
+// specific name (the last digest of the chain); on NOT_FOUND the handler moves
+// exactly one level up and asks again, until the chain is exhausted; any other
+// failure is surfaced with its code.
+//@ func (*hierarchicalInstanceNamesBlobAccess).Get
+//@   requires ba.BlobAccess != nil
+//@   ensures result != nil
+//@   ensures [most-specific-name-first] baCalls(ba.BlobAccess) == old(baCalls(ba.BlobAccess)) + 1
+//@         && baDigest(ba.BlobAccess) == digests[len(digests) - 1].value
+//@ func (*hierarchicalInstanceNamesGetErrorHandler).OnError
+//@   requires len(eh.digests) >= 1 && eh.blobAccess != nil && err != nil
+//@   ensures [failure-surfaced] code(err) != NotFound ==> result0 == nil && result1 != nil && code(result1) == code(err)
+//@         && len(eh.digests) == old(len(eh.digests)) && baCalls(eh.blobAccess) == old(baCalls(eh.blobAccess))
+//@   ensures [exhausted-means-not-found] code(err) == NotFound && old(len(eh.digests)) == 1 ==> result0 == nil && result1 == err
+//@         && baCalls(eh.blobAccess) == old(baCalls(eh.blobAccess))
+//@   ensures [one-level-up] code(err) == NotFound && old(len(eh.digests)) > 1 ==> result1 == nil && result0 != nil
+//@         && len(eh.digests) == old(len(eh.digests)) - 1 && base(eh.digests) == old(base(eh.digests))
+//@         && baCalls(eh.blobAccess) == old(baCalls(eh.blobAccess)) + 1
+//@         && baDigest(eh.blobAccess) == eh.digests[len(eh.digests) - 1].value
